@@ -1,6 +1,6 @@
 (* Proofs_tensors_polar2.v -- polar decomposition, second part:
    * the theorems of Proofs_tensors_polar transferred to the GENERATED definitions of
-     gen/Gen_polar.v (tie T) through Inst_tensors.polar_left_inst / polar_right_inst;
+     gen/Gen_polar.v (tie T) through Inst_polar.polar_left_inst / polar_right_inst;
    * the stretch is THE positive semi-definite square root:  P.P = M.M^T  (left),
      U_m.U_m = M^T.M (right);  so a symmetric input with a negative direction is never its
      own stretch (the statement a "symmetric fast path" violates);
@@ -9,7 +9,7 @@
      (the proposed repair, fixes/C11-polar-right-singular.patch). *)
 From Coq Require Import Reals ZArith List Lra Lia Bool.
 From PV Require Import Num NumR Model_voigt Model_decomp Proofs_tensors_alg Proofs_tensors_rot
-  Proofs_tensors_polar Inst_tensors.
+  Proofs_tensors_polar Inst_polar.
 From PV.gen Require Import Gen_tensors Gen_polar.
 Import ListNotations.
 Open Scope R_scope.
@@ -156,9 +156,11 @@ Section PolarOracle2.
 
   (* the repair: R = U.Vh is orthogonal and R.U_m = M for EVERY M (no determinant hypothesis) *)
   Let Rf := matmul3 U Vh.
-  Theorem polar_right_repaired :
-    (orth (mat3 Rf) /\ orth (tr3 (mat3 Rf))) /\ eq2b (mm (mat3 Rf) (mat3 Um)) (mat3 M).
+  Theorem polar_right_repaired_spec :
+    let '(R, Ur) := @polar_right_repaired NumR U S Vh in
+    (orth (mat3 R) /\ orth (tr3 (mat3 R))) /\ eq2b (mm (mat3 R) (mat3 Ur)) (mat3 M).
   Proof.
+    unfold polar_right_repaired. fold Um. fold Rf.
     split.
     - exact (polar_left_orthogonal U S Vh HU1 HU2 HV1 HV2).
     - set (Uu := mat3 U). set (D := diagm S). set (V := mat3 Vh).
@@ -192,24 +194,36 @@ Section PolarOracle2.
     - apply polar_left_stretch_squared.
   Qed.
 
-  (* the right variant on the generated code: a value iff det M <> 0, and then the clauses *)
+  (* the right variant on the generated code, WHICHEVER version of the source it was generated from
+     (Inst_polar.polar_right_inst): a returned pair satisfies every clause; if the call raises, the error is
+     numpy's LinAlgError (a ValueError) and M is singular *)
   Theorem polar_right_generated :
     match @k_polar_decompose_right NumR M U S Vh with
     | Ok (R, Ur) =>
-        @det3 NumR M <> 0 /\ eq2b (mm (mat3 R) (mat3 Ur)) (mat3 M) /\ orth (mat3 R) /\
+        eq2b (mm (mat3 R) (mat3 Ur)) (mat3 M) /\ orth (mat3 R) /\
         sym3 (mat3 Ur) /\ forall x, 0 <= quad (mat3 Ur) x
     | Err e => e = ValueError /\ @det3 NumR M = 0
     end.
   Proof.
-    rewrite polar_right_inst.
-    destruct (Req_EM_T (@det3 NumR M) 0) as [H0|Hn].
-    - rewrite (polar_right_singular_raises H0). split; [reflexivity|exact H0].
-    - destruct (proj2 polar_right_ok_iff Hn) as [Rr E]. rewrite E.
-      destruct (polar_right_product M U S Vh HU1 HV2 HM Rr Um E) as (_ & Hp & Ho).
-      split; [exact Hn|]. split; [exact Hp|]. split; [exact Ho|]. split.
+    destruct polar_right_inst as [H|H]; rewrite H.
+    - destruct (Req_EM_T (@det3 NumR M) 0) as [H0|Hn].
+      + rewrite (polar_right_singular_raises H0). split; [reflexivity|exact H0].
+      + destruct (proj2 polar_right_ok_iff Hn) as [Rr E]. rewrite E.
+        destruct (polar_right_product M U S Vh HU1 HV2 HM Rr Um E) as (_ & Hp & Ho).
+        split; [exact Hp|]. split; [exact Ho|]. split.
+        * apply polar_right_stretch_symmetric.
+        * intros x. apply polar_right_stretch_psd, HS.
+    - pose proof polar_right_repaired_spec as Hr. unfold polar_right_repaired in Hr |- *.
+      split; [exact (proj2 Hr)|]. split; [exact (proj1 (proj1 Hr))|]. split.
       + apply polar_right_stretch_symmetric.
       + intros x. apply polar_right_stretch_psd, HS.
   Qed.
+
+  (* the source is one of the two versions; in the repaired one the call never raises *)
+  Theorem polar_right_repaired_total :
+    (forall M' U' S' Vh' : arr NumR, @k_polar_decompose_right NumR M' U' S' Vh' = Ok (@polar_right_repaired NumR U' S' Vh')) ->
+    exists R Ur, @k_polar_decompose_right NumR M U S Vh = Ok (R, Ur).
+  Proof. intros H. rewrite H. unfold polar_right_repaired. eexists. eexists. reflexivity. Qed.
 End PolarOracle2.
 
 (* non-vacuity of the singular case and of the indefinite case: diag(1, -1, 0) with the SVD
